@@ -77,6 +77,11 @@ META = {
   tie="Run: every generated (stream, target type) pair incl. shape mismatches at every depth and documents abandoned at a random event, under deadline/recover/ulimit -v: /repo must return an error or succeed exactly as the unfolder model does, never panic or hang; unsupported target types must be refused by SetTarget.",
   note="The memory-safety half (no write outside the target through unsafe) is runtime behaviour the model cannot exhibit: partial. ",
   technique="Coq proof (total unfolder model; allocation bound) + guarded differential runs"),
+ "C15": dict(
+  thm="Theorems (coq/Properties/C15.v): see the file (by-value deliveries of the parser models; the key cache hands out fresh memory).",
+  tie="Run: documents in every chunking are parsed into an Unfolder (interface{} target, optional key cache) and into a recorder that keeps by-value strings without copying; then every chunk buffer is overwritten, a second document reuses the same parser and unfolder, a GC runs, and nothing stored may have changed; a share of the cases forces runtime.GC() between events; the same and the Fold/Unfold pipelines also run under go build -race (checkptr).",
+  note="The second sentence of the property (pointer validity, GC at any event boundary) is runtime behaviour no Gallina model exhibits: partial. ",
+  technique="Coq proof (provenance of delivered strings in the models) + buffer-scribbling differential runs + checkptr/race-instrumented runs"),
  "C16": dict(
   thm="Theorems (coq/Properties/C16.v): in the encoder models a failed write is returned by the call that made it (if every call returned nil the failing write was never attempted); adapters deliver nothing after a visitor error (see the file for components covered).",
   tie="Run (fault enumeration): writers/visitors failing from a generated index on, for encoders, parsers, adapters and Fold of /repo: an error must be returned no later than the last event, be the injected error itself, and nothing may be delivered after it; outcome must equal the model's.",
